@@ -84,7 +84,7 @@ def r1_census(ctx: Ctx) -> None:
     for (mod, name), what in sorted(c.items()):
         ctx.count("module_objects")
         ctx.ok(f"{mod}:{name}", f"process-lifetime mutable object ({what})")
-    ctx.floor("module_objects", 9)
+    ctx.floor("module_objects", 6)
     for need in [("a816.cpu.cpu_65c816", "snes_opcode_table"), ("a816.symbols", "low_rom_bus"), ("a816.symbols", "high_rom_bus"),
                  ("a816.symbols", "BUS_MAPPING"), ("a816.parse.codegen", "generators")]:
         if need not in c:
@@ -104,7 +104,7 @@ def r1_census(ctx: Ctx) -> None:
             kind = _classify(ci.module, val, ctx.repo)
             ctx.count("class_attributes")
             ctx.check(kind != "mutable", f"{ci.module.relpath}:{ci.name}.{tgt}", "a mutable class-level value is shared by every instance (and every assembly)")
-    ctx.floor("class_attributes", 8)
+    ctx.floor("class_attributes", 5)
 
 
 def _shared_roots(ctx: Ctx, fn: FunctionInfo, cens: dict[tuple[str, str], str]) -> dict[str, str]:
@@ -209,8 +209,8 @@ def r2_nobody_writes(ctx: Ctx) -> None:
             dn = dotted(dec if not isinstance(dec, ast.Call) else dec.func) or ""
             ctx.check(dn.split(".")[-1] not in ("cache", "lru_cache", "cached_property"), f"{fn.where}:@{dn}", "memoisation keeps results of one assembly alive for the next")
     ctx.count("functions_scanned", n_funcs)
-    ctx.floor("functions_scanned", 300)
-    ctx.floor("stores", 100)
+    ctx.floor("functions_scanned", 200)
+    ctx.floor("stores", 66)
     # module-level code (import time) may initialise; but only in the defining module
     for mi in repo.modules.values():
         for st in mi.tree.body:
@@ -256,7 +256,7 @@ def r3_shared_buses_frozen(ctx: Ctx) -> None:
             if w is not None:
                 ctx.count("guarded_writes")
                 ctx.check(g.dominated_by(g.node_of(w), [gn]), f"Bus.{meth}:{unparse(w)[:40]}", "the write happens only after the editable check")
-    ctx.floor("guarded_writes", 5)
+    ctx.floor("guarded_writes", 3)
     # editable is assigned only by the constructor and by module initialisation
     for fn in ctx.repo.all_functions():
         for n in walk_no_nested(fn.node):
@@ -321,7 +321,7 @@ def r4_per_instance_state(ctx: Ctx) -> None:
             in_loop = any(isinstance(p, (ast.For, ast.While)) and any(x is s for s in scans for x in ast.walk(p)) and not any(x is c for x in ast.walk(p)) for p in walk_no_nested(fn.node))
             ctx.check(len(bind) == 1 and len(scans) == 1 and not in_loop, f"{fn.where}:Scanner()",
                       "a scanner is a fresh local used for exactly one scan (its cursor fields start from the class-level zeros and are never reset)")
-    ctx.floor("scanner_sites", 3)
+    ctx.floor("scanner_sites", 2)
     # instance fields that shadow class-level scalars are only ever assigned through self
     sc = repo.cls("a816.parse.scanner", "Scanner")
     class_level = [t.id for st in sc.node.body if isinstance(st, ast.Assign) for t in st.targets if isinstance(t, ast.Name)] + \
@@ -423,7 +423,7 @@ def r5_shared_objects_not_passed_to_mutators(ctx: Ctx) -> None:
                         ctx.fail(f"{caller.where}:{unparse(sct.node)[:50]}", f"calls {t.qualname}, which mutates its receiver, on the process-lifetime object {r}")
     ctx.count("argument_positions", n_sites)
     ctx.count("mutating_functions", sum(1 for v in muts.values() if v))
-    ctx.floor("argument_positions", 500)
+    ctx.floor("argument_positions", 333)
     ctx.ok("C19:no-shared-object-reaches-a-mutator", f"{n_sites} argument positions checked against {sum(1 for v in muts.values() if v)} parameter-mutating functions")
 
 
